@@ -16,7 +16,17 @@ class MatrixOfCellIdentifiersTokenTranslator(AbstractTranslator):
         from excel2pycl.src.translators.cell_translator import CellTranslator
 
         matrix = excel.get_matrix(start_cell, finish_cell)
-        matrix_cell_codes = '[' + ','.join(
-            ['[' + ','.join([CellTranslator.translate(j, excel, context) for j in i]) + ']' for i in matrix]) + ']'
+        line_codes = ['[' + ','.join([CellTranslator.translate(j, excel, context) for j in i]) + ']' for i in matrix]
+        if start_cell.row is None and finish_cell.row is None:
+            # whole columns: rows appended by set_cells after the translation are part of them
+            if start_cell.column == finish_cell.column:
+                # A:A is a list of one-cell rows
+                line_codes.append(f'*[[i] for i in self._rows_below({start_cell.title}, {start_cell.column}, {len(matrix)})]')
+            else:
+                # A:C is a list of columns
+                line_codes = [code[:-1] + (',' if line else '')
+                              + f'*self._rows_below({start_cell.title}, {start_cell.column + index}, {len(line)})]'
+                              for index, (code, line) in enumerate(zip(line_codes, matrix))]
+        matrix_cell_codes = '[' + ','.join(line_codes) + ']'
 
         return context.set_sub_cell(start_cell, matrix_cell_codes)
